@@ -66,6 +66,7 @@ static void startNode(const DOMNode* n, Dump& d, const DomDumpOpts& o) {
             }
             std::sort(v.begin(), v.end()); for (size_t i = 0; i < v.size(); i++) d.ev(v[i]);
             d.ev("DIS\t" + esc(dt->getInternalSubset()));
+            d.ev("EDT");
             break;
         }
         case DOMNode::DOCUMENT_NODE: d.ev("SD"); break;
